@@ -45,6 +45,8 @@ pub mod input_buffer {
                         && final(stream).delivered() == old(stream).delivered() + final(self.buf)@.subrange(old(self.buf)@.len() as int, final(self.buf)@.len() as int),
                     Err(_) => final(self.buf)@ == old(self.buf)@ && final(stream).delivered() == old(stream).delivered(),
                 },
+                // (spelled out: nothing read, nothing appended)
+                (r matches Ok(n) && n == 0) ==> final(self.buf)@ == old(self.buf)@,
         { unimplemented!() }
     }
 }
